@@ -39,6 +39,8 @@ class _Cell(PyNative):
 
 
 MARK = "/*BODY-MARKER*/"
+TABLE_NAME = "FE0_C0_Q083"
+TABLE_DECL = "/*DECLARATION-OF-TABLE FE0_C0_Q083*/"
 
 
 def _interp(repo, modname, scalar):
@@ -46,8 +48,19 @@ def _interp(repo, modname, scalar):
     it.overrides["logger"] = Node("Logger", info=_PyCall(lambda *a: None), debug=_PyCall(lambda *a: None))
     it.overrides["sys.platform"] = "linux"
     it.overrides["FFCXBackend"] = _PyCall(lambda ir, options: Node("FFCXBackend", ir=ir, options=options))
-    it.overrides["IntegralGenerator"] = _PyCall(lambda ir, backend: Node("IntegralGenerator", generate=_PyCall(lambda domain: Node("Parts", domain=domain))))
-    it.overrides["Formatter"] = _PyCall(lambda st: _PyCall(lambda parts: MARK))
+    # the body generator returns a statement list that starts with a constant table; the formatter stub prints a table declaration as
+    # TABLE_DECL and everything else as MARK, so that the place where each of them lands in the emitted text can be read back
+    def body(domain):
+        tbl = Node("ArrayDecl", symbol=Node("Symbol", name=TABLE_NAME, dtype="DataType.REAL"), const=True, sizes=(1,), values=[1.0], dtype="DataType.REAL")
+        return Node("StatementList", statements=[tbl, Node("Comment", comment="kernel body")], domain=domain)
+
+    def fmt(parts):
+        if isinstance(parts, Node) and parts.cls == "ArrayDecl":
+            return TABLE_DECL
+        decls = [TABLE_DECL for p_ in (parts.f.get("statements") or []) if isinstance(p_, Node) and p_.cls == "ArrayDecl"] if isinstance(parts, Node) else []
+        return "".join(decls) + MARK
+    it.overrides["IntegralGenerator"] = _PyCall(lambda ir, backend: Node("IntegralGenerator", generate=_PyCall(body)))
+    it.overrides["Formatter"] = _PyCall(lambda st: _PyCall(fmt))
     it.overrides["tensor_sizes"] = _PyCall(lambda ir: Node("TensorSizes", A="nA", w="nw", c="nc", coords="nx", local_index="nl", permutation="np_"))
     import string
     it.overrides["template_keys"] = _PyCall(lambda t: set(f for _, f, _, _ in string.Formatter().parse(t) if f))
@@ -56,7 +69,7 @@ def _interp(repo, modname, scalar):
 
 @rule(
     "GEN-INTEGRAL",
-    ["C06", "C05", "C18", "C20", "C09"],
+    ["C06", "C05", "C18", "C20", "C09", "C19"],
     "the C and numba integral generators, interpreted for every scalar type on sample IntegralIR records, emit a "
     "descriptor named <integral>_<cell type> whose only non-NULL kernel slot is the one of the scalar type and points "
     "to the kernel defined in the same text with scalar/real parameter types; enabled_coefficients, "
@@ -112,6 +125,14 @@ def gen_integral(repo, res):
                 fail = lambda msg: res.fail(key, f"{be} `{label}` [{scalar}]: {msg}", loc, props=props)  # noqa: E731
                 if MARK not in text:
                     fail("the formatted kernel body is not part of the emitted text")
+                # the constant tables of a kernel are named per quadrature rule and element, not per kernel: they must stay inside the kernel function
+                fstart = re.search(rf"\bvoid\s+tabulate_tensor_{re.escape(obj)}\s*\(" if be == "C" else rf"(?m)^def\s+tabulate_tensor_{re.escape(obj)}\s*\(", text)
+                fend = re.search(rf"\bufcx_integral\s+{re.escape(obj)}\s*=" if be == "C" else rf"(?m)^class\s+{re.escape(obj)}\b", text)
+                if text.count(TABLE_DECL) != 1 or not fstart or not fend or not (fstart.end() < text.index(TABLE_DECL) < fend.start()):
+                    res.fail(key, f"{be} `{label}` [{scalar}]: the declaration of the kernel's constant table {TABLE_NAME} is emitted {text.count(TABLE_DECL)} time(s)"
+                             + ("" if text.count(TABLE_DECL) != 1 else ", outside the kernel function") + ": table names are unique within a kernel only (rule id, element), "
+                             "at file / module level the tables of two kernels of one module collide (C: redefinition; Python: the later one silently replaces the earlier)",
+                             loc, props=("C18", "C19") if be == "numba" else ("C19", "C18"))
                 if be == "C":
                     if not re.search(rf"\bextern\s+ufcx_integral\s+{re.escape(obj)}\s*;", out[0]):
                         fail(f"the declaration does not announce `ufcx_integral {obj}` (the object the form's form_integrals table points to)")
